@@ -162,6 +162,18 @@ MUTANTS = [
      "require_taxon: a known label yields a fresh non-member"),
     ("C12", "dendropy/datamodel/taxonmodel.py", "            for taxon in self._taxa:\n                memo[id(taxon)] = taxon\n        return memo",
      "            for taxon in self._taxa[1:]:\n                memo[id(taxon)] = taxon\n        return memo", "populate_memo: the first taxon is not entered (it would be copied)"),
+    ("C09", "dendropy/datamodel/basemodel.py", "        return s.getvalue()\n", "        return s.getvalue().rstrip()\n", "as_string: the buffer is trimmed before it is returned"),
+    ("C09", "dendropy/datamodel/basemodel.py", "        self._format_and_write_to_stream(stream=s, schema=schema, **kwargs)\n        return s.getvalue()",
+     "        self._format_and_write_to_stream(stream=s, schema=schema)\n        return s.getvalue()", "as_string: writer options dropped"),
+    ("C09", "dendropy/datamodel/basemodel.py", "        with open(os.path.expandvars(os.path.expanduser(dest)), \"w\") as f:", "        with open(os.path.expandvars(os.path.expanduser(dest)), \"a\") as f:",
+     "write_to_path: appends to what the file held"),
+    ("C09", "dendropy/datamodel/charmatrixmodel.py", "        kwargs[\"data_type\"] = cls.data_type\n", "        kwargs.setdefault(\"data_type\", cls.data_type)\n",
+     "CharacterMatrix.get: a data_type given by the caller overrides the class's"),
+    ("C09", "dendropy/datamodel/charmatrixmodel.py", "        char_matrix = char_matrices[matrix_offset]", "        char_matrix = char_matrices[-1]", "CharacterMatrix.get: the last matrix, not the one asked for"),
+    ("C09", "dendropy/datamodel/charmatrixmodel.py", "        writer = dataio.get_writer(schema, **kwargs)\n        writer.write_char_matrices([self],",
+     "        kwargs.pop(\"wrap\", None)\n        writer = dataio.get_writer(schema, **kwargs)\n        writer.write_char_matrices([self],", "CharacterMatrix writer glue: one writer option swallowed"),
+    ("C09", "dendropy/datamodel/datasetmodel.py", "        writer.write_dataset(self, stream, exclude_trees, exclude_chars)", "        writer.write_dataset(self, stream, exclude_chars, exclude_trees)",
+     "DataSet writer glue: the two exclusion flags exchanged"),
     ("C12", "dendropy/datamodel/taxonmodel.py", "            memo[id(self)] = self\n            for taxon in self._taxa:\n                memo[id(taxon)] = taxon",
      "            for taxon in self._taxa:\n                memo[id(taxon)] = taxon", "populate_memo: the namespace itself is not entered"),
     ("C12", "dendropy/datamodel/basemodel.py", "            return self.taxon_namespace_scoped_copy(memo=None)", "            return copy.deepcopy(self)",
